@@ -35,6 +35,12 @@ def gen_cases(ck):
         cases.append({"type": "lattice", "seed": int(ck.rng.integers(1 << 30)), "tissue": "brick", "nx": 3, "ny": 3, "kmin": 0, "kmax": 0,
                       "angle": [0.0, float(ck.rng.uniform(0, 6.28))][i % 2], "scale": 1.0, "limit": None, "rhs": "static", "method": None,
                       "fit": "dlite", "noise": 0.0})
+    for i in range(6 if ck.tier == "quick" else 30):
+        # perturbed square lattices: every inner junction has four interfaces, opposite ones nearly in line; limits just below pi
+        # flag some junctions and not others, so that four-fold junctions lose one or two interfaces and keep the rest
+        cases.append({"type": "lattice", "seed": int(ck.rng.integers(1 << 30)), "tissue": "square", "nx": int(ck.rng.integers(4, 7)), "ny": int(ck.rng.integers(4, 6)),
+                      "kmin": 0, "kmax": 0, "angle": float(ck.rng.uniform(0, 6.28)), "scale": 1.0, "noise": float(ck.rng.choice([0.04, 0.08])),
+                      "limit": float(ck.rng.uniform(0.9, 0.985) * math.pi), "rhs": "static", "method": [None, "lsq"][i % 2], "fit": "dlite"})
     for i in range(2 if ck.tier == "quick" else 8):
         # the boundary of "at least the limit": axis-parallel brick lattices have junctions that open by exactly pi (exact in
         # floating point and in the model), solved with angle_limit = pi
